@@ -28,6 +28,8 @@ func runC08(c *core.Ctx) {
 	ruleDimensionCaps(c)
 	ruleChainCap(c)
 	ruleCloseForwarding(c)
+	rulePoolOwnership(c)
+	ruleLZWPrefixOrder(c)
 }
 
 // filterImplementers lists the named types of package pdf that implement pdf.Filter.
@@ -497,4 +499,349 @@ func hasMethod(t types.Type, name string) bool {
 		}
 	}
 	return false
+}
+
+// rulePoolOwnership (C08-R7): the JBIG2 working-memory pool counts live
+// bytes; freeBitmap(x) subtracts len(x.Pix) and panics when more is released
+// than is live.  A bitmap that is still retained elsewhere (a stored segment,
+// a symbol table entry) must therefore never be released: the accounting
+// would drop below what is really allocated (budget bypass) and a second
+// release panics.  Decided per freeBitmap(x) with a local x: every
+// definition of x that reaches the call is the result of a call (a fresh
+// allocation or decode) or nil; a definition that borrows stored data
+// (field, index or map read) is allowed only when the release is guarded by
+// a flag that can only be true on paths that do not pass the borrowing
+// definition.
+func rulePoolOwnership(c *core.Ctx) {
+	const rule = "C08-R7"
+	const pk = "pdf/internal/filter/jbig2"
+	pkg := c.Prog.Pkg(pk)
+	n := 0
+	for _, fn := range c.Prog.Funcs(pkg) {
+		fn := fn
+		calls := core.CallsTo(fn.Info(), fn.Decl.Body, false, pk+".(*bitmapPool).freeBitmap")
+		if len(calls) == 0 {
+			continue
+		}
+		n++
+		c.Check(rule, fn.Key, "only bitmaps owned by this function (results of an allocation or decode call) are released to the pool", func(o *core.Ob) {
+			info := fn.Info()
+			g := fn.Graph()
+			for _, call := range calls {
+				o.Count(1)
+				fv := g.VertexOf(call)
+				x := core.ObjOf(info, call.Args[0])
+				if fv == nil {
+					core.Undecided("release at %s not found in the control-flow graph", c.Prog.Pos(call.Pos()))
+				}
+				if x == nil {
+					o.FailAt(fn.Site(call, ""), "%s: %s is released directly from storage", c.Prog.Pos(call.Pos()), c.Prog.Src(call.Args[0]))
+					continue
+				}
+				if _, isVar := x.(*types.Var); !isVar || x.Parent() == x.Pkg().Scope() {
+					o.FailAt(fn.Site(call, ""), "%s: %s is not a local variable", c.Prog.Pos(call.Pos()), x.Name())
+					continue
+				}
+				defs := defVertices(g, x)
+				var borrowed []*core.V
+				for _, d := range defs {
+					// reaching?
+					var others []*core.V
+					for _, e := range defs {
+						if e != d {
+							others = append(others, e)
+						}
+					}
+					if !g.ReachFrom(d, false, core.AvoidVs(others...))[fv] {
+						continue
+					}
+					if rs, ok := d.AST.(*ast.RangeStmt); ok {
+						_ = rs
+						borrowed = append(borrowed, d)
+						continue
+					}
+					r, ok := rhsFor(info, d, x)
+					if !ok {
+						// multi-value assignment from a call: x, err = f(...)
+						if as, isAs := d.AST.(*ast.AssignStmt); isAs && len(as.Rhs) == 1 {
+							if _, isCall := ast.Unparen(as.Rhs[0]).(*ast.CallExpr); isCall {
+								continue
+							}
+						}
+						borrowed = append(borrowed, d)
+						continue
+					}
+					if r == nil || core.IsNil(info, r) {
+						continue
+					}
+					if _, isCall := ast.Unparen(r).(*ast.CallExpr); isCall {
+						continue
+					}
+					// a move from another owned local: y's definitions are calls or nil, and y is
+					// not released after the move without being redefined first
+					if y, ok := core.ObjOf(info, r).(*types.Var); ok && y != nil && y.Parent() != y.Pkg().Scope() && !y.IsField() && y != x {
+						ydefs := defVertices(g, y)
+						owned := len(ydefs) > 0
+						for _, yd := range ydefs {
+							yr, ok := rhsFor(info, yd, y)
+							if !ok {
+								if as, isAs := yd.AST.(*ast.AssignStmt); isAs && len(as.Rhs) == 1 {
+									if _, isCall := ast.Unparen(as.Rhs[0]).(*ast.CallExpr); isCall {
+										continue
+									}
+								}
+								owned = false
+								continue
+							}
+							if yr == nil || core.IsNil(info, yr) {
+								continue
+							}
+							if _, isCall := ast.Unparen(yr).(*ast.CallExpr); !isCall {
+								owned = false
+							}
+						}
+						if owned {
+							after := g.ReachFrom(d, false, core.AvoidVs(ydefs...))
+							double := false
+							for _, c2 := range calls {
+								if core.ObjOf(info, c2.Args[0]) == y && after[g.VertexOf(c2)] {
+									double = true
+								}
+							}
+							if !double {
+								continue
+							}
+						}
+					}
+					// a borrowing definition whose condition excludes the release; only facts
+					// about variables that do not change between the two sites count
+					stableAtom := func(a core.Atom) bool {
+						stable := true
+						ast.Inspect(a.Expr, func(m ast.Node) bool {
+							if id, ok := m.(*ast.Ident); ok {
+								if vo, ok := info.ObjectOf(id).(*types.Var); ok && !vo.IsField() {
+									for _, vd := range defVertices(g, vo) {
+										if g.ReachFrom(d, false, core.AvoidVs(others...))[vd] && g.ReachFrom(vd, false, core.AvoidVs(defs...))[fv] {
+											stable = false
+										}
+									}
+								}
+							}
+							if _, isCall := m.(*ast.CallExpr); isCall {
+								if tv, ok := info.Types[m.(*ast.CallExpr).Fun]; !ok || !(tv.IsType() || tv.IsBuiltin()) {
+									stable = false
+								}
+							}
+							return true
+						})
+						return stable
+					}
+					var both []core.Atom
+					for _, a := range append(append([]core.Atom{}, g.DominatingAtoms(d)...), g.DominatingAtoms(fv)...) {
+						if stableAtom(a) {
+							both = append(both, a)
+						}
+					}
+					unsat, _, decided := c.Prog.Implies(core.Formula{Fn: fn, Atoms: both}, core.Formula{Fn: fn, Atoms: []core.Atom{{Expr: core.FalseExpr}}})
+					if decided && unsat {
+						o.At(fn.Site(d.AST, "borrowed only when the release is excluded: "+c.Prog.FormulaString(core.Formula{Atoms: both})))
+						continue
+					}
+					borrowed = append(borrowed, d)
+				}
+				// parameters and range variables have no definition vertex: a released parameter is the caller's
+				if len(defs) == 0 {
+					if paramIndexOf(fn, x) >= 0 {
+						o.Fact("%s releases its parameter %s (ownership passes from the caller)", fn.Key, x.Name())
+						continue
+					}
+					// range value: borrowed from the ranged container
+					borrowedRange := true
+					_ = borrowedRange
+				}
+				if len(borrowed) == 0 {
+					o.At(fn.Site(call, "releases owned "+x.Name()))
+					continue
+				}
+				// flag guard
+				var flags []types.Object
+				for _, a := range g.DominatingAtoms(fv) {
+					if id, ok := ast.Unparen(a.Expr).(*ast.Ident); ok && !a.Neg && a.Tag == nil {
+						if fo := info.ObjectOf(id); fo != nil && isBoolObj(fo) {
+							flags = append(flags, fo)
+						}
+					}
+				}
+				okFlag := false
+				for _, f := range flags {
+					good := true
+					for _, s := range defVertices(g, f) {
+						r, ok := rhsFor(info, s, f)
+						if ok && (r == nil || (core.ConstOf(info, r) != nil && core.ConstOf(info, r).String() == "false")) {
+							continue
+						}
+						if !ok || core.ConstOf(info, r) == nil {
+							good = false
+							continue
+						}
+						for _, b := range borrowed {
+							if g.ReachFrom(b, false, nil)[s] || g.ReachFrom(s, false, nil)[b] {
+								good = false
+							}
+						}
+					}
+					if good {
+						okFlag = true
+						o.At(fn.Site(call, "releases "+x.Name()+" under ownership flag "+f.Name()))
+					}
+				}
+				if !okFlag {
+					for _, b := range borrowed {
+						o.FailAt(fn.Site(b.AST, "borrowed here"), "%s: %s may hold a bitmap that is still retained elsewhere (%s) when it is released at %s", c.Prog.Pos(b.AST.Pos()), x.Name(), c.Prog.Src(b.AST), c.Prog.Pos(call.Pos()))
+					}
+				}
+			}
+		})
+	}
+	c.Floor(rule, 6)
+	_ = n
+}
+
+func isBoolObj(o types.Object) bool {
+	b, ok := o.Type().Underlying().(*types.Basic)
+	return ok && b.Info()&types.IsBoolean != 0
+}
+
+func paramIndexOf(fn *core.Func, obj types.Object) int {
+	i := 0
+	for _, fl := range fn.Decl.Type.Params.List {
+		for _, nm := range fl.Names {
+			if fn.Info().Defs[nm] == obj {
+				return i
+			}
+			i++
+		}
+	}
+	return -1
+}
+
+// ruleLZWPrefixOrder (C08-R8): the LZW decoder expands a code by walking
+// prefix[c] until it reaches a literal; the walk ends because every table
+// entry points to a smaller code (prefix[hi] = last with last < hi).  The
+// order holds because hi grows by one whenever last is set to the code just
+// read.  On the one path where hi is taken back (table full), last may equal
+// hi, so last has to be invalidated before it is read again; otherwise a
+// repeated top code creates prefix[hi] == hi and the walk never ends.
+func ruleLZWPrefixOrder(c *core.Ctx) {
+	const rule = "C08-R8"
+	const pk = "pdf/internal/filter/lzw"
+	c.Check(rule, pk+".(*Reader).decode/prefix-order", "whenever the table index hi is decremented, last is reset to the invalid code before its next use (so that prefix[hi] = last always stores a smaller code)", func(o *core.Ob) {
+		fn := c.Prog.Func(pk, "(*Reader).decode")
+		g := fn.Graph()
+		info := fn.Info()
+		isField := func(e ast.Expr, name string) bool {
+			sel, ok := ast.Unparen(e).(*ast.SelectorExpr)
+			if !ok || sel.Sel.Name != name {
+				return false
+			}
+			v, ok := info.ObjectOf(sel.Sel).(*types.Var)
+			return ok && v.IsField()
+		}
+		invalid := c.Prog.Pkg(pk).Types.Scope().Lookup("decoderInvalidCode")
+		if invalid == nil {
+			core.Undecided("decoderInvalidCode not found")
+		}
+		var decs, resets, otherSets, reads []*core.V
+		for _, v := range g.Vs {
+			if v.AST == nil {
+				continue
+			}
+			switch s := v.AST.(type) {
+			case *ast.IncDecStmt:
+				if s.Tok == token.DEC && isField(s.X, "hi") {
+					decs = append(decs, v)
+				}
+				continue
+			case *ast.AssignStmt:
+				assignsLast := false
+				for i, l := range s.Lhs {
+					if isField(l, "last") {
+						assignsLast = true
+						if len(s.Rhs) == len(s.Lhs) && core.ObjOf(info, s.Rhs[i]) == invalid {
+							resets = append(resets, v)
+						} else {
+							otherSets = append(otherSets, v)
+						}
+					}
+					if isField(l, "hi") && s.Tok == token.SUB_ASSIGN {
+						decs = append(decs, v)
+					}
+				}
+				readsLast := false
+				for _, r := range s.Rhs {
+					ast.Inspect(r, func(m ast.Node) bool {
+						if e, ok := m.(ast.Expr); ok && isField(e, "last") {
+							readsLast = true
+						}
+						return true
+					})
+				}
+				if readsLast {
+					reads = append(reads, v)
+				}
+				_ = assignsLast
+				continue
+			}
+			if v.Cond != nil && v.Cond.Expr != nil {
+				found := false
+				ast.Inspect(v.Cond.Expr, func(m ast.Node) bool {
+					if e, ok := m.(ast.Expr); ok && isField(e, "last") {
+						found = true
+					}
+					return true
+				})
+				if found {
+					reads = append(reads, v)
+				}
+			}
+		}
+		o.Fact("%d decrements of hi, %d resets of last, %d other assignments, %d reads", len(decs), len(resets), len(otherSets), len(reads))
+		o.Require(len(reads) >= 3, "uses of last not found")
+		if len(decs) == 0 {
+			// nothing to protect; but then hi must not be capped some other way
+			o.Count(1)
+			return
+		}
+		for _, d := range decs {
+			o.Count(1)
+			o.At(fn.Site(d.AST, "hi taken back"))
+			// a reset that dominates the decrement with no other assignment in between
+			ok := false
+			for _, r := range resets {
+				if g.Dominates(r, d) {
+					clean := true
+					for _, x := range otherSets {
+						if g.ReachFrom(r, false, core.AvoidVs(r))[x] && g.ReachFrom(x, false, core.AvoidVs(r))[d] {
+							clean = false
+						}
+					}
+					if clean {
+						ok = true
+					}
+				}
+			}
+			if !ok {
+				// every path from the decrement to a read passes a reset (or a fresh assignment)
+				free := g.ReachFrom(d, false, core.AvoidVs(append(append([]*core.V{}, resets...), otherSets...)...))
+				ok = true
+				for _, rd := range reads {
+					if free[rd] {
+						ok = false
+						o.FailAt(fn.Site(rd.AST, "last read here"), "%s: hi is decremented at %s while last still holds the code just read (possibly equal to hi); it is used at %s without having been reset to decoderInvalidCode: a self-referential table entry makes the expansion loop endless", c.Prog.Pos(rd.AST.Pos()), c.Prog.Pos(d.AST.Pos()), c.Prog.Pos(rd.AST.Pos()))
+						break
+					}
+				}
+			}
+		}
+	})
 }
